@@ -61,6 +61,17 @@ Definition prune_diff_checked (mon : list (N * bool * option bool)) : list N :=
 Definition prune_thm_failures (mon : list (N * bool * option bool)) : list N :=
   map (fun r => fst (fst r)) (filter (fun r => snd (fst r) && is_true (snd r)) mon).
 
+(** all of it as one list for the replay (bin/propcfg/cpem.py decodes): [4 * id + 1] = premise fails,
+    [4 * id + 2] = reference twin run, [4 * id + 3] = ... and it differs from the real parser's result *)
+Definition prune_mon_codes (g : grammar) (stride : N) (cases : list case_t) : list N :=
+  flat_map (fun r : N * bool * option bool =>
+                     let id := fst (fst r) in
+                     (if snd (fst r) then [] else [4 * id + 1])
+                     ++ match snd r with
+                        | Some b => (4 * id + 2) :: (if b then [4 * id + 3] else [])
+                        | None => []
+                        end) (prune_mon g stride cases).
+
 From Sq Require Import Pem.WfExamples Pem.PruneEx.
 Example ex_toks_ok_b :
   toks_ok_b g_ex [cm; ct 14; ws] = true /\ toks_ok_b g_kind [ct 14] = false
